@@ -320,3 +320,42 @@ fn c12_stored_fields_read_back_and_copied_words_stay_inside_the_slot() {
     check_in_slot("c12_read_back_and_copies", progs);
     check_in_slot_as("c12_read_back_of_a_slot_field", "layout.entry_inside_slot.d28_field_of_field_through_storage", d28);
 }
+
+/// packed stores WITH HOLES between their fields, whose fields are then split by narrower read masks, while one of the
+/// stored values also sits at another offset of another slot: the re-partitioned spans of every slot stay inside the slot
+#[test]
+fn c12_packed_stores_with_holes_split_by_narrower_reads_stay_inside_the_slot() {
+    let low = |len: u32| -> U256 { if len >= 256 { U256::MAX } else { (U256::ONE << len) - U256::ONE } };
+    let mut progs: Vec<(String, Vec<u8>)> = vec![];
+    // a = cd(32) & low(la) ; b = cd(0) & low(lb) ; sstore(2, a << sa2) ; sstore(1, b | a << sa1) ; sload(1) & (low(lr) << pr) dropped into memory
+    for (lb, la, sa1) in [(64u32, 128u32, 128u32), (8, 64, 192), (32, 32, 64), (64, 64, 128), (16, 160, 96)] {
+        for sa2 in [0u32, 64, 128] {
+            if sa2 + la > 256 { continue; }
+            for (pr, lr) in [(sa1, la / 2), (sa1 + la / 2, la / 2), (0, lb / 2), (sa1, 8), (sa1 + 8, la - 8)] {
+                if pr + lr > 256 || lr == 0 { continue; }
+                for mul in [false, true] {
+                    let mut c = vec![];
+                    let place = |c: &mut Vec<u8>, s: u32| { if s == 0 { return; } if mul { push_word(c, U256::ONE << s); c.push(0x02); } else { push_word(c, U256::from(s)); c.push(0x1b); } };
+                    // a << sa2 -> slot 2
+                    push_word(&mut c, low(la)); c.extend([0x60, 0x20, 0x35, 0x16]); place(&mut c, sa2); c.extend([0x60, 0x02, 0x55]);
+                    // b | a << sa1 -> slot 1
+                    push_word(&mut c, low(lb)); c.extend([0x60, 0x00, 0x35, 0x16]);
+                    push_word(&mut c, low(la)); c.extend([0x60, 0x20, 0x35, 0x16]); place(&mut c, sa1);
+                    c.extend([0x17, 0x60, 0x01, 0x55]);
+                    // narrower read of slot 1
+                    push_word(&mut c, low(lr) << pr); c.extend([0x60, 0x01, 0x54, 0x16, 0x60, 0x00, 0x52, 0x00]);
+                    progs.push((format!("slot2 = a[{la}] at {sa2}; slot1 = b[{lb}] at 0 | a at {sa1}; read slot1 bits [{pr},+{lr}) ({})", if mul { "MUL" } else { "SHL" }), c));
+                    if sa2 == 0 {
+                        // the SAME positioned value (one node, DUP1) goes to slot 2 and into slot 1
+                        let mut c = vec![];
+                        push_word(&mut c, low(la)); c.extend([0x60, 0x20, 0x35, 0x16]); place(&mut c, sa1); c.extend([0x80, 0x60, 0x02, 0x55]);
+                        push_word(&mut c, low(lb)); c.extend([0x60, 0x00, 0x35, 0x16, 0x17, 0x60, 0x01, 0x55]);
+                        push_word(&mut c, low(lr) << pr); c.extend([0x60, 0x01, 0x54, 0x16, 0x60, 0x00, 0x52, 0x00]);
+                        progs.push((format!("v = a[{la}] at {sa1}; slot2 = v; slot1 = b[{lb}] | v; read slot1 bits [{pr},+{lr}) ({})", if mul { "MUL" } else { "SHL" }), c));
+                    }
+                }
+            }
+        }
+    }
+    check_in_slot("c12_packed_with_holes", progs);
+}
